@@ -10,7 +10,7 @@ through the router.  Not decided: hash values themselves.
 import ast
 
 from ..model import dotted, unparse, norm, walk_no_nested
-from ..rulelib import Ctx, nodes_calling, short
+from ..rulelib import Ctx, nodes_calling, short, ValueNumbers
 from ..symeval import SymEval, alternatives, show, fmt_specs
 
 STABLE_SELF = {'hash_type', 'replica_count', 'compute_ring_position', 'replica_key'}
@@ -78,6 +78,8 @@ def rule_local_mutation(check, cx, rule):
             unparse(gen.ifs[0].left).replace(' ', '') in ('%s[1]' % tv, key) and dotted(gen.iter) == 'self.ring'
           elt_ok = isinstance(n.value.elt, ast.Name) and n.value.elt.id == tv
           good = cond_ok and elt_ok
+        elif isinstance(n, ast.Assign) and isinstance(n.value, ast.Name):
+          good = _filter_loop(cx, m, n)
         if good:
           rule.ok('remove_node keeps, in order, every entry whose node differs', m.loc(n))
         else:
@@ -103,6 +105,66 @@ def rule_local_mutation(check, cx, rule):
     else:
       rule.violate('%s leaves the node set out of step' % m.name, m, None, '%s does not update self.nodes / nodes_len / ring_len '
                    'together with the ring' % m.name, construct='self.nodes.%s / lengths' % op)
+
+
+def _filter_loop(cx, m, assign):
+  """self.ring = L where L starts empty and, in one loop over self.ring, receives exactly the entries whose node
+  differs from the leaving one, in ring order:   L = []; for e in self.ring: if e[1] != key: L.append(e)"""
+  from ..paths import PathExec
+  from ..symeval import canon
+  lst = assign.value.id
+  key = ('param', m.params[1])
+  RING = ('attr', ('param', m.params[0]), 'ring')
+  g = cx.cfg(m)
+  inits = [s_ for s_ in walk_no_nested(m.node, include_self=False) if isinstance(s_, ast.Assign) and
+           any(isinstance(t, ast.Name) and t.id == lst for t in s_.targets)]
+  if len(inits) != 1 or not ((isinstance(inits[0].value, ast.List) and not inits[0].value.elts) or
+                             (isinstance(inits[0].value, ast.Call) and dotted(inits[0].value.func) == 'list' and not inits[0].value.args)):
+    return False
+  uses = [c for c in walk_no_nested(m.node, include_self=False) if isinstance(c, ast.Call) and isinstance(c.func, ast.Attribute) and
+          dotted(c.func.value) == lst]
+  if not uses or any(c.func.attr != 'append' or len(c.args) != 1 for c in uses):
+    return False
+  heads = [n for n in g.nodes if n.kind == 'loop' and isinstance(n.owner, ast.For) and dotted(n.owner.iter) == 'self.ring']
+  if len(heads) != 1:
+    return False
+  head = heads[0]
+  apps = [n for n in g.nodes if n.kind == 'stmt' and any(c in uses for c in g.calls(n))]
+  if not all(n in g.in_loop_nodes(head.owner) for n in apps):
+    return False
+  NODE = ('field', ('elem', RING), 1)
+
+  def differs(conds):
+    """True / False / None: the decisions of one iteration say the entry's node differs from / equals the key / neither"""
+    out = None
+    for pol, t, a, n in conds:
+      if pol not in ('T', 'F') or not isinstance(t, tuple) or t[0] == 'loop':
+        continue
+      t = canon(t)
+      if t[0] == 'cmp' and t[1] in ('Eq', 'NotEq') and {t[2], t[3]} == {NODE, key}:
+        v = (t[1] == 'NotEq') == (pol == 'T')
+        out = v if out is None or out == v else 'both'
+      else:
+        return 'other'
+    return out
+  px = PathExec(cx, m, unroll=0, follow_exceptions=False)
+  ok = True
+  seen_keep = seen_drop = False
+  for hit in px.run(set(apps) | {head}):
+    if hit.node is head and head not in hit.trail[:-1]:
+      continue
+    since = [c for c in hit.conds if c[3] in g.in_loop_nodes(head.owner) and c[3] is not head]
+    d = differs(since)
+    if hit.node in apps:
+      call = [c for c in g.calls(hit.node) if c in uses][0]
+      if d is not True or canon(hit.term(call.args[0], px)) != ('elem', RING):
+        ok = False
+      seen_keep = True
+    elif not any(n in apps for n in hit.trail):
+      if d is not False:
+        ok = False
+      seen_drop = True
+  return ok and seen_keep and seen_drop and not px.truncated
 
 
 def run(check):
@@ -272,11 +334,18 @@ def run(check):
       if isinstance(t, ast.Compare) and len(t.ops) == 1 and isinstance(t.ops[0], ast.In) and isinstance(t.left, ast.Name):
         pos = t.left.id
         c = t.comparators[0]
-        all_positions = False
-        if isinstance(c, (ast.ListComp, ast.SetComp, ast.GeneratorExp)) and len(c.generators) == 1 and \
-           dotted(c.generators[0].iter) == 'self.ring' and not c.generators[0].ifs and isinstance(c.elt, ast.Subscript) and \
-           isinstance(c.elt.slice, ast.Constant) and c.elt.slice.value == 0:
-          all_positions = True
+        # the collection searched is "the position of every ring entry", computed in this very iteration of the replica loop
+        vn = ValueNumbers(cx, add)
+        ct = vn.term(c, w)
+        while isinstance(ct, tuple) and ct[0] == 'call' and ct[1] in ('set', 'list', 'tuple', 'frozenset') and len(ct) == 3:
+          ct = ct[2]
+        RING = ('attr', ('param', add.params[0]), 'ring')
+        all_positions = ct == ('comp', ('field', ('elem', RING), 0), ())
+        if all_positions and isinstance(c, ast.Name):
+          floop = [f_ for f_ in walk_no_nested(add.node, include_self=False) if isinstance(f_, ast.For) and any(x is w for x in ast.walk(f_))]
+          defs_in = [d for d in walk_no_nested(add.node, include_self=False) if isinstance(d, ast.Assign) and
+                     any(isinstance(tg, ast.Name) and tg.id == c.id for tg in d.targets)]
+          all_positions = bool(floop) and bool(defs_in) and all(any(x is d for x in ast.walk(floop[-1])) for d in defs_in)
         body_ok = len(w.body) == 1 and (
           (isinstance(w.body[0], ast.AugAssign) and isinstance(w.body[0].op, ast.Add) and dotted(w.body[0].target) == pos and
            isinstance(w.body[0].value, ast.Constant) and w.body[0].value.value == 1) or
@@ -316,25 +385,42 @@ def run(check):
   # fnv32a constants
   fnv = [f for f in repo.module('carbon.hashing').functions.get('fnv32a', []) if any(isinstance(n, ast.For) for n in ast.walk(f.node))]
   if fnv:
-    t = unparse(fnv[0].node)
-    dflt = fnv[0].node.args.defaults
-    seed_ok = dflt and isinstance(dflt[-1], ast.Constant) and dflt[-1].value == 0x811c9dc5
-    prime_ok = any(isinstance(n, ast.Constant) and n.value == 0x01000193 for n in ast.walk(fnv[0].node))
-    mod_ok = '2 ** 32' in t or '4294967296' in t or '0xffffffff' in t.lower()
-    order_ok = False
-    for lp in [n for n in ast.walk(fnv[0].node) if isinstance(n, ast.For)]:
-      ops = []
-      for st in lp.body:
-        for x in ast.walk(st):
-          if isinstance(x, ast.BinOp) and isinstance(x.op, (ast.BitXor, ast.Mult)):
-            ops.append(type(x.op).__name__)
-      if ops[:1] == ['BitXor'] and 'Mult' in ops[1:]:
-        order_ok = True
-    if seed_ok and prime_ok and mod_ok and order_ok:
-      r_b.ok('FNV-1a: offset basis 0x811c9dc5, prime 0x01000193, xor then multiply, mod 2**32', fnv[0].loc())
+    from ..paths import PathExec
+    fv = fnv[0]
+    gfv = cx.cfg(fv)
+    dflt = fv.node.args.defaults
+    seed_name = fv.params[-1] if fv.params else 'seed'
+    seed_ok = bool(dflt) and isinstance(dflt[-1], ast.Constant) and dflt[-1].value == 0x811c9dc5
+    px = PathExec(cx, fv, unroll=1, follow_exceptions=False)
+    SEED = ('param', seed_name)
+    shapes = set()
+    for hit in px.run([n for n in gfv.nodes if n.kind == 'stmt' and isinstance(n.ast, ast.Return)]):
+      shapes.add(hit.term(hit.node.ast.value, px) if hit.node.ast.value is not None else ('const', None))
+
+    def one_round(t):
+      """t == ((seed ^ <octet>) * 0x01000193) % 2**32   ->  (prime ok, modulus ok, xor-before-multiply ok)"""
+      if not (isinstance(t, tuple) and t[0] == 'binop'):
+        return None
+      mod_ok = False
+      if t[1] == 'Mod' and t[3] == ('const', 2 ** 32):
+        mod_ok, t = True, t[2]
+      elif t[1] == 'BitAnd' and t[3] == ('const', 0xffffffff):
+        mod_ok, t = True, t[2]
+      if not (isinstance(t, tuple) and t[0] == 'binop' and t[1] == 'Mult'):
+        return None
+      a, b = t[2], t[3]
+      if a == ('const', 0x01000193):
+        a, b = b, a
+      prime = b == ('const', 0x01000193)
+      order = isinstance(a, tuple) and a[0] == 'binop' and a[1] == 'BitXor' and SEED in (a[2], a[3])
+      return prime, mod_ok, order
+    rounds = [one_round(t) for t in shapes if t != SEED]
+    if seed_ok and rounds and all(r == (True, True, True) for r in rounds):
+      r_b.ok('FNV-1a: offset basis 0x811c9dc5, prime 0x01000193, xor then multiply, mod 2**32', fv.loc())
     else:
-      r_b.violate('FNV-1a constants', fnv[0], None, 'the pure-python fnv32a does not use the FNV-1a parameters (basis %s, prime %s, '
-                  'mod 2**32 %s, xor-then-multiply %s)' % (seed_ok, prime_ok, mod_ok, order_ok), construct='fnv32a')
+      r_b.violate('FNV-1a constants', fv, None, 'the pure-python fnv32a does not compute ((h ^ octet) * 0x01000193) %% 2**32 from '
+                  'the offset basis 0x811c9dc5 (basis %s; value after one octet: %s)' % (
+                    seed_ok, sorted(show(t) for t in shapes if t != SEED)[:2]), construct='fnv32a')
   from ..rulelib import reaching_defs, value_assigned
 
   def _resolve(g, node, e, depth=0):
